@@ -21,6 +21,8 @@ pub enum PollOut {
     End,
     Done,
     Vec(Vec<Tok>),
+    /// a Vec of zero-sized outputs (no identities): its length
+    VecZst(usize),
     VecErr(Tok),
 }
 
@@ -437,6 +439,43 @@ where
     }
     relocate_unpin!();
 }
+/// joins whose outputs are zero-sized tokens with a destructor
+struct SJaZ<F: Future>(futures_buffered::JoinAll<F>);
+impl<F: Child<Output = ZTok> + 'static> Subject for SJaZ<F> {
+    fn poll(&mut self, cx: &mut Context<'_>) -> PollOut {
+        match Pin::new(&mut self.0).poll(cx) {
+            Poll::Pending => PollOut::Pending,
+            Poll::Ready(v) => {
+                let n = v.len();
+                drop(v);
+                PollOut::VecZst(n)
+            }
+        }
+    }
+    fn obs(&self) -> Obs {
+        Obs::default()
+    }
+    relocate_unpin!();
+}
+struct STjaZ<F: futures_buffered::TryFuture>(futures_buffered::TryJoinAll<F>);
+impl<F: Child<Output = Result<ZTok, Tok>> + 'static> Subject for STjaZ<F> {
+    fn poll(&mut self, cx: &mut Context<'_>) -> PollOut {
+        match Pin::new(&mut self.0).poll(cx) {
+            Poll::Pending => PollOut::Pending,
+            Poll::Ready(Ok(v)) => {
+                let n = v.len();
+                drop(v);
+                PollOut::VecZst(n)
+            }
+            Poll::Ready(Err(e)) => PollOut::VecErr(e),
+        }
+    }
+    fn obs(&self) -> Obs {
+        Obs::default()
+    }
+    relocate_unpin!();
+}
+
 struct STja<F: futures_buffered::TryFuture>(futures_buffered::TryJoinAll<F>);
 impl<F, A, B> Subject for STja<F>
 where
@@ -515,6 +554,20 @@ pub fn build(cfg: &Config, initial: Vec<u32>) -> Result<Box<dyn Subject>, ()> {
                 };
             }
             match cfg.subject {
+                SubjectKind::JA if cfg.shape & 4 != 0 => {
+                    if cfg.shape & 1 != 0 {
+                        Box::new(SJaZ(join_all(initial.map(NdFut::<PlainZst>::new))))
+                    } else {
+                        Box::new(SJaZ(join_all(initial.map(SimFut::<PlainZst>::new))))
+                    }
+                }
+                SubjectKind::TJA if cfg.shape & 4 != 0 => {
+                    if cfg.shape & 1 != 0 {
+                        Box::new(STjaZ(try_join_all(initial.map(NdFut::<TryZst>::new))))
+                    } else {
+                        Box::new(STjaZ(try_join_all(initial.map(SimFut::<TryZst>::new))))
+                    }
+                }
                 SubjectKind::FUB | SubjectKind::FU | SubjectKind::FOB | SubjectKind::FO | SubjectKind::JA => match cfg.shape & 3 {
                     0 => coll!(SimFut<Plain>),
                     1 => coll!(NdFut<Plain>),
